@@ -1,0 +1,48 @@
+//go:build verif
+
+package rtsp
+
+// Machine-checked contracts for /verif (govc). Comment-only: compiled only with -tags verif, adds no code.
+
+// C20 (the RTSP reader pair, field-managed): the read pair is opened by onPlay exactly when the library session is in
+// state PrePlay (1) - a PLAY repeated while already playing opens nothing - and its closer is stored; onPause and
+// onClose call the stored closer exactly when the session is in state Play (2), at most once per call. That the
+// library moves PrePlay -> Play after onPlay and Play -> PrePlay after onPause is gortsplib's state machine (assumed).
+
+//@ func (s *session) onPlay
+//@   property C20
+//@   safety -all
+//@   assert-call ServerSession.State: called(ServerSession.State) == 1
+//@   assert-call OnRead: called(OnRead) == 1 && resultof(ServerSession.State) == 1
+//@   ensures [read-pair-opened-iff-preplay] called(ServerSession.State) == 1 && called(OnRead) == b2i(resultof(ServerSession.State) == 1)
+//@   ensures [closer-stored] called(OnRead) == 1 ==> s.onUnreadHook == resultof(OnRead)
+
+//@ func (s *session) onPause
+//@   property C20
+//@   safety -all
+//@   assert-call ServerSession.State: called(ServerSession.State) == 1
+//@   assert-call onUnreadHook: called(onUnreadHook) == 1 && resultof(ServerSession.State) == 2
+//@   ensures [read-pair-closed-iff-playing] old(s.mpegtsDemuxer) == nil ==> called(ServerSession.State) == 1 && called(onUnreadHook) == b2i(resultof(ServerSession.State) == 2)
+//@   ensures [refused-pause-closes-nothing] old(s.mpegtsDemuxer) != nil ==> called(onUnreadHook) == 0
+
+//@ func (s *session) onClose
+//@   property C20
+//@   safety -all
+//@   assert-call ServerSession.State: true
+//@   assert-call onUnreadHook: called(onUnreadHook) == 1 && called(ServerSession.State) == 1 && resultof(ServerSession.State) == 2
+//@   ensures [read-pair-closed-at-most-once] called(onUnreadHook) <= 1
+
+// C20 (the RTSP connection pair, field-managed): initialize opens the connection pair exactly once and stores its
+// closer; onClose calls the stored closer exactly once.
+
+//@ func (c *conn) initialize
+//@   property C20
+//@   safety -all
+//@   assert-call OnConnect: called(OnConnect) == 1
+//@   ensures [connection-pair-opened-once] called(OnConnect) == 1
+
+//@ func (c *conn) onClose
+//@   property C20
+//@   safety -all
+//@   assert-call onDisconnectHook: called(onDisconnectHook) == 1
+//@   ensures [connection-pair-closed-once] called(onDisconnectHook) == 1
